@@ -90,6 +90,15 @@ class Setup:
             self.start = in_v
         return True
 
+    def replace_by_copy(self, how):
+        """Swap the (already queried) world for a deepcopy / pickle / nrpickler copy of itself."""
+        vs, ls, uni = graphs.copied(self.vs, self.ls, self.uni, how)
+        self.vs, self.ls, self.uni = vs, ls, uni
+        self.vi = {id(v): i for i, v in enumerate(self.vs)}
+        self.li = {id(l): i for i, l in enumerate(self.ls)}
+        self.ff = graphs.real_filter2(self.f, self.vi, self.li)
+        return True
+
     def fresh_ff(self, accept_all=False):
         """A new short-lived ff_via callable at every call (same truth table unless accept_all)."""
         if accept_all:
